@@ -129,8 +129,9 @@ var passwords = []string{
 	"pa\x00ss",                                            // embedded NUL
 	" ",
 	"Password",
-	"e\u0301", // e + combining acute accent (decomposed)
-	"\u00e9",  // the composed form: a different byte string
+	"e\u0301",                                    // e + combining acute accent (decomposed)
+	"\u00e9",                                     // the composed form: a different byte string
+	"secret\n", "secret\r\n", "\n", "  padded\t", // blanks and line terminators are part of a password
 }
 
 const (
@@ -489,6 +490,19 @@ func wrongPasswordsFor(pw []byte) [][]byte {
 	add(append(append([]byte{}, pw...), 0))
 	add(append(append([]byte{}, pw...), ' '))
 	add(append(append([]byte{}, pw...), pw...))
+	// what a "normalising" reader of passwords (file, terminal, environment) would fold together:
+	// line terminators, blanks and a byte-order mark around the password, and its case (m128)
+	for _, suf := range []string{"\n", "\r\n", "\r", "\t", "\n\n", "\x00\n"} {
+		add(append(append([]byte{}, pw...), suf...))
+	}
+	for _, pre := range []string{" ", "\n", "\t", "\xef\xbb\xbf"} {
+		add(append([]byte(pre), pw...))
+	}
+	add(bytes.TrimSpace(pw))
+	add(bytes.TrimRight(pw, "\r\n"))
+	add(bytes.TrimRight(pw, "\x00"))
+	add(bytes.ToLower(pw))
+	add(bytes.ToUpper(pw))
 	if len(pw) > 0 {
 		add(append([]byte{}, pw[:len(pw)-1]...))
 		f := append([]byte{}, pw...)
